@@ -27,11 +27,36 @@ def layout_variants(code, rng):
     return code
 
 
+def multi_statement(seed, i):
+    """A function whose statements each stand on their own line(s): a position taken from the wrong statement shows as a wrong line."""
+    import catalogue
+    rng = random.Random("%s/c09multi/%d" % (seed, i))
+    forms = catalogue.operations(rng)
+    def op():
+        e = rng.choice(forms)()
+        return e.replace("super.x", "o.x")
+    body = []
+    for j in range(rng.randrange(3, 7)):
+        body.append(rng.choice([
+            lambda: "x = %s;" % op(),
+            lambda: "log(a, b, %s);" % rng.choice(["k", "o.p", "'who'", "r"]),
+            lambda: "const v%d = %s;" % (j, op()),
+            lambda: "if (%s) {\n    y = %s;\n  }" % (op(), op()),
+            lambda: "this.v%d = %s;" % (j, rng.choice(["this.opts?.prefix.trim()", "this?.p.substring(1)", "'lit'?.trim()", "this.a?.b.concat('x', 'y')", op()])),
+            lambda: "// comment %d" % j,
+            lambda: "",
+        ])())
+    body.append("return %s;" % rng.choice(["this.opts?.prefix.trim()", "this?.p.trim()", op(), "x"]))
+    return "function f(a,b,o,k,r,q,x,y,z,i,arr){\n  " + "\n  ".join(body) + "\n}\n"
+
+
 def cases(O):
     n = 200 if O.tier == "quick" else 3000
     opts = {"reparse": True}
     cs = F.regress_cases(opts=opts) + F.snippet_cases(opts=opts)
     gen = F.generated_cases(O.seed, n, "c09", cfg_fn=F.config_variants, opts=opts) + E.catalogue_cases(O.seed, n, "c09", cfg_fn=F.config_variants, opts=opts)
+    cs += [{"id": "c09multi-%d" % i, "config": vlib.default_config(), "calls": [{"code": multi_statement(O.seed, i), "file": "multi.js"}], "opts": dict(opts)}
+           for i in range(n)]
     for i, c in enumerate(gen):
         rng = random.Random("%s/c09lay/%d" % (O.seed, i))
         c["calls"][0]["code"] = layout_variants(c["calls"][0]["code"], rng)
